@@ -8,6 +8,7 @@ counters, that a diagnostic appears for an inner command that cannot run, the st
 import json
 import random
 
+import structure
 from common import Report, ToolError, chars, check_action_coverage, log, run_cases, run_tlc, std_main
 
 MAP = {"N": "\n"}
@@ -194,6 +195,8 @@ def runner(rep, tier, seed, replay):
         if c["kind"] == "failing":
             vh["st.1"] = "3"
         jobs.append({"entry": "c", "text": render(c), "vhfiles": vh, "timeout": 5, "want_files": False})
+    # the same lines as the head of `if` / `else if` / `while` (separate code path: scripting.rs::run_exp_test_br)
+    structure.check_heads(rep, jobs, random.Random(seed), 100 if tier == "quick" else 1000, "C11")
     results = run_cases(jobs)
     slow = [i for i, res in enumerate(results) if res.get("timed_out")]
     if slow:
